@@ -1,14 +1,16 @@
+pub mod c10;
 pub mod tok;
 
 use crate::engine::{Ctx, Obs, Verdict};
 use serde_json::Value;
 
-pub const ALL: &[&str] = &["C07", "C08"];
+pub const ALL: &[&str] = &["C07", "C08", "C10"];
 
 pub fn run(ctx: &mut Ctx) -> bool {
     match ctx.property.as_str() {
         "C07" => tok::check(ctx, "C07"),
         "C08" => tok::check(ctx, "C08"),
+        "C10" => c10::check(ctx),
         _ => return false,
     }
     true
@@ -17,6 +19,7 @@ pub fn run(ctx: &mut Ctx) -> bool {
 pub fn replay(property: &str, sub: &str, case: &Value, obs: &mut Obs) -> Result<Verdict, String> {
     match property {
         "C07" | "C08" => tok::replay(property, sub, case, obs),
+        "C10" => c10::replay(sub, case, obs),
         _ => Err(format!("unknown property {property}")),
     }
 }
